@@ -588,6 +588,37 @@ class CallMixin:
             from .numeric import construct_vec
             yield from construct_vec(self, args, kwargs, st, node)
             return
+        ctor = REG.fns.get(cv.qual)
+        if ctor is not None:
+            # constructor contract (trusted or proved elsewhere): parameters in declared order
+            names = list(ctor.params)
+            penv = {}
+            for n_, v_ in zip(names, args):
+                penv[n_] = self.coerce_to(st, v_, ctor.params[n_])
+            for k_, v_ in kwargs.items():
+                penv[k_] = self.coerce_to(st, v_, ctor.params.get(k_))
+            for n_ in names:
+                if n_ not in penv:
+                    penv[n_] = NONEV
+            self.contracts_used.add(cv.qual)
+            cs_ = st.fork()
+            cs_.env = dict(penv)
+            cs_.spec = True
+            for j, r_ in enumerate(ctor.requires):
+                g_ = self.spec_eval_bool(r_, cs_)
+                self.oblige(st, g_, 'precondition', 'call:%s:requires[%d]' % (cv.qual.split('.')[-1], j), node)
+                st.assume(g_)
+            res = fresh_value(st, ctor.returns, 'new_%s' % cv.qual.split('.')[-1])
+            ps = st.fork()
+            ps.env = dict(penv)
+            ps.env['result'] = res
+            ps.spec = True
+            ps.old = (dict(penv), dict(st.store))
+            ps.store = st.store
+            for en in ctor.ensures:
+                st.assume(self.spec_eval_bool(en, ps))
+            yield res, st
+            return
         cs = REG.cls(cv.qual)
         ci = self.class_info(cv.qual)
         if ci is None:
